@@ -293,12 +293,12 @@ def transform_body(unit, body, directives, log):
             a, b, rule = d['from'], d['to'], d['rule']
             if rule not in REWRITE_RULES or not REWRITE_RULES[rule](a, b):
                 raise ExtractError('%s: rewrite `%s` => `%s` is not an instance of rule %s' % (unit, a, b, rule))
-            idxs = [m.start() for m in re.finditer(re.escape(a), body)]
-            idxs = [i for i in idxs if mbody[i] == body[i]]
-            if len(idxs) != d['count']:
-                raise ExtractError('%s: rewrite `%s` expected %d occurrence(s), found %d' % (unit, a, d['count'], len(idxs)))
-            for i in idxs:
-                edits.append((i, i + len(a), b))
+            pat = r'\s+'.join(re.escape(tok) for tok in a.split())
+            ms = [m for m in re.finditer(pat, body) if mbody[m.start()] == body[m.start()]]
+            if len(ms) != d['count']:
+                raise ExtractError('%s: rewrite `%s` expected %d occurrence(s), found %d' % (unit, a, d['count'], len(ms)))
+            for m in ms:
+                edits.append((m.start(), m.end(), b))
                 log.append({'unit': unit, 'rule': rule, 'before': a, 'after': b})
     # loops with no directive are kept verbatim (Verus will demand invariants if it needs them)
     edits = [e for _, e in sorted(enumerate(edits), key=lambda ie: (ie[1][0], ie[1][1], 0 if 'AFTERLOOP' in ie[1][2] else 1, ie[0]))]
